@@ -37,6 +37,61 @@ func (s kbState) clone() kbState {
 	return n
 }
 
+// uuidBytes interprets a UUID constructor on symbolic arguments and returns the terms of the 16 bytes it returns.
+func uuidBytes(p *Program, fi *FuncInfo) ([]*term, string) {
+	se := newSymEval(p)
+	se.errNil = true
+	se.opaque["io.ReadFull"] = true
+	se.opaque["io.ReadAtLeast"] = true
+	se.opaque["rand.Read"] = true
+	info := fi.Pkg.TypesInfo
+	var args []sval
+	if fi.Decl.Type.Params != nil {
+		for _, pf := range fi.Decl.Type.Params.List {
+			for _, pn := range pf.Names {
+				t := info.TypeOf(pf.Type)
+				if _, _, isInt := se.width(t); isInt {
+					args = append(args, sval{kind: 'i', t: tSym(pn.Name), typ: t})
+				} else if _, isSl := t.Underlying().(*types.Slice); isSl {
+					args = append(args, sval{kind: 's', base: pn.Name, off: tConst(0), slen: tSym("len(" + pn.Name + ")")})
+				} else {
+					args = append(args, sval{kind: 'u'})
+				}
+			}
+		}
+	}
+	vals, ok := se.evalFunc(fi, args)
+	if len(se.unsup) > 0 || !ok {
+		return nil, strings.Join(se.unsup, "; ")
+	}
+	if len(vals) == 0 || vals[0].kind != 'a' || vals[0].arr == nil || len(vals[0].arr.elems) != 16 {
+		return nil, "the first result is not a 16-byte array value"
+	}
+	var out []*term
+	for _, e := range vals[0].arr.elems {
+		if e.kind != 'i' {
+			return nil, "a byte of the result is not an integer term"
+		}
+		out = append(out, e.t)
+	}
+	return out, ""
+}
+
+func bitsText(pv [64]pbit, hi, lo int) string {
+	var sb strings.Builder
+	for i := hi; i >= lo; i-- {
+		switch pv[i].kind {
+		case '0', '1':
+			sb.WriteByte(pv[i].kind)
+		case 's':
+			sb.WriteByte('x')
+		default:
+			sb.WriteByte('?')
+		}
+	}
+	return sb.String()
+}
+
 func c19r1(p *Program, r *Report) {
 	for _, w := range []struct {
 		fn      string
@@ -46,204 +101,19 @@ func c19r1(p *Program, r *Report) {
 		if fi == nil {
 			continue
 		}
-		g := p.GraphOf(fi)
-		info := g.Info
-		// the UUID variable
-		var uObj types.Object
-		ast.Inspect(fi.Decl.Body, func(x ast.Node) bool {
-			if vs, ok := x.(*ast.ValueSpec); ok && uObj == nil {
-				for _, nm := range vs.Names {
-					if typeNameOf(info.TypeOf(nm)) == "UUID" {
-						uObj = info.Defs[nm]
-					}
-				}
-			}
-			return true
-		})
-		if uObj == nil {
-			r.Unresolved("%s: no local UUID variable", w.fn)
+		bytes, why := uuidBytes(p, fi)
+		if bytes == nil {
+			r.Unresolved("%s: %s", w.fn, why)
 			continue
 		}
-		evalByte := func(st kbState, e ast.Expr) kbits {
-			var ev func(e ast.Expr) kbits
-			ev = func(e ast.Expr) kbits {
-				e = ast.Unparen(e)
-				if k, ok := constInt(info, e); ok {
-					return kbits{0xFF, uint8(k)}
-				}
-				switch x := e.(type) {
-				case *ast.BinaryExpr:
-					l, rr := ev(x.X), ev(x.Y)
-					switch x.Op {
-					case token.AND:
-						zeros := (l.mask &^ l.val) | (rr.mask &^ rr.val)
-						ones := (l.mask & l.val) & (rr.mask & rr.val)
-						return kbits{zeros | ones, ones}
-					case token.OR:
-						ones := (l.mask & l.val) | (rr.mask & rr.val)
-						zeros := (l.mask &^ l.val) & (rr.mask &^ rr.val)
-						return kbits{zeros | ones, ones}
-					}
-				case *ast.IndexExpr:
-					if isIdentOf(info, x.X, uObj) {
-						if k, ok := constInt(info, x.Index); ok {
-							return st[int(k)]
-						}
-					}
-				}
-				return kbits{}
-			}
-			return ev(e)
-		}
-		sol := Solve(g, Lattice[kbState]{
-			Init: kbState{},
-			Join: func(a, b kbState) kbState {
-				n := kbState{}
-				for k, av := range a {
-					bv := b[k]
-					m := av.mask & bv.mask &^ (av.val ^ bv.val)
-					n[k] = kbits{m, av.val & m}
-				}
-				return n
-			},
-			Eq: func(a, b kbState) bool {
-				if len(a) != len(b) {
-					return false
-				}
-				for k, v := range a {
-					if b[k] != v {
-						return false
-					}
-				}
-				return true
-			},
-			Step: func(s kbState, st Step) kbState {
-				if st.Kind != StNode {
-					return s
-				}
-				switch x := st.Node.(type) {
-				case *ast.ValueSpec:
-					for _, nm := range x.Names {
-						if info.Defs[nm] == uObj {
-							n := kbState{}
-							for i := 0; i < 16; i++ {
-								n[i] = kbits{0xFF, 0}
-							}
-							return n
-						}
-					}
-				case *ast.AssignStmt:
-					n := s.clone()
-					changed := false
-					// evaluate all RHS in the old state (tuple assignment)
-					var vals []kbits
-					for i := range x.Lhs {
-						if len(x.Rhs) == len(x.Lhs) {
-							vals = append(vals, evalByte(s, x.Rhs[i]))
-						} else {
-							vals = append(vals, kbits{})
-						}
-					}
-					for i, l := range x.Lhs {
-						ix, ok := ast.Unparen(l).(*ast.IndexExpr)
-						if !ok || !isIdentOf(info, ix.X, uObj) {
-							continue
-						}
-						k, ok := constInt(info, ix.Index)
-						if !ok {
-							for j := range n {
-								n[j] = kbits{}
-							}
-							return n
-						}
-						changed = true
-						old := s[int(k)]
-						switch x.Tok {
-						case token.ASSIGN, token.DEFINE:
-							n[int(k)] = vals[i]
-						case token.OR_ASSIGN:
-							rv := vals[i]
-							ones := (old.mask & old.val) | (rv.mask & rv.val)
-							zeros := (old.mask &^ old.val) & (rv.mask &^ rv.val)
-							n[int(k)] = kbits{zeros | ones, ones}
-						case token.AND_ASSIGN:
-							rv := vals[i]
-							zeros := (old.mask &^ old.val) | (rv.mask &^ rv.val)
-							ones := (old.mask & old.val) & (rv.mask & rv.val)
-							n[int(k)] = kbits{zeros | ones, ones}
-						default:
-							n[int(k)] = kbits{}
-						}
-					}
-					if changed {
-						return n
-					}
-				case *ast.ExprStmt:
-					// copy(u[k:], ...) / io.ReadFull(r, u[:]) overwrite a range
-					n := s.clone()
-					touched := false
-					ast.Inspect(x, func(m ast.Node) bool {
-						sl, ok := m.(*ast.SliceExpr)
-						if !ok || !isIdentOf(info, sl.X, uObj) {
-							return true
-						}
-						lo := 0
-						if sl.Low != nil {
-							if k, ok := constInt(info, sl.Low); ok {
-								lo = int(k)
-							}
-						}
-						for i := lo; i < 16; i++ {
-							n[i] = kbits{}
-						}
-						touched = true
-						return true
-					})
-					if touched {
-						return n
-					}
-				}
-				// assignments like `_, err := io.ReadFull(rand.Reader, u[:])`
-				if as, ok := st.Node.(*ast.AssignStmt); ok {
-					n := s.clone()
-					touched := false
-					for _, rhs := range as.Rhs {
-						ast.Inspect(rhs, func(m ast.Node) bool {
-							if sl, ok := m.(*ast.SliceExpr); ok && isIdentOf(info, sl.X, uObj) {
-								for i := 0; i < 16; i++ {
-									n[i] = kbits{}
-								}
-								touched = true
-							}
-							return true
-						})
-					}
-					if touched {
-						return n
-					}
-				}
-				return s
-			},
-		})
-		nret := 0
-		for _, e := range g.Exits() {
-			rs, ok := e.Node.(*ast.ReturnStmt)
-			if !ok || len(rs.Results) == 0 || !isIdentOf(info, rs.Results[0], uObj) {
-				continue
-			}
-			if len(rs.Results) == 2 && !isNil(info, rs.Results[1]) {
-				continue
-			}
-			nret++
-			s, _ := sol.Before(rs)
-			b6, b8 := s[6], s[8]
-			r.Check(b6.mask&0xF0 == 0xF0 && b6.val&0xF0 == w.version<<4, rs, fmt.Sprintf("%s returns a version %d UUID", w.fn, w.version),
-				fmt.Sprintf("byte 6 high nibble known = 0x%X", w.version), fmt.Sprintf("at this return the version nibble of byte 6 is not provably %d (known mask 0x%02X value 0x%02X): the version is stamped before the byte is overwritten, or with the wrong value", w.version, b6.mask, b6.val))
-			r.Check(b8.mask&0xC0 == 0xC0 && b8.val&0xC0 == 0x80, rs, w.fn+" returns the RFC 4122 variant", "byte 8 top bits known = 10", fmt.Sprintf("at this return the variant bits of byte 8 are not provably 10 (known mask 0x%02X value 0x%02X)", b8.mask, b8.val))
-		}
-		if nret == 0 {
-			r.Unresolved("%s: no success return of the UUID variable", w.fn)
-		}
+		v6, v8 := provenance(bytes[6]), provenance(bytes[8])
+		want := fmt.Sprintf("%04b", w.version)
+		got := bitsText(v6, 7, 4)
+		r.Check(got == want, fi.Decl, fmt.Sprintf("%s returns a version %d UUID", w.fn, w.version), "bits 7..4 of byte 6 are "+want+" in the value returned",
+			fmt.Sprintf("in the returned value the version nibble of byte 6 is %s (x: a data bit, ?: unknown), RFC 4122 requires %s: the version is stamped before the byte is overwritten, or with the wrong value", got, want))
+		gotV := bitsText(v8, 7, 6)
+		r.Check(gotV == "10", fi.Decl, w.fn+" returns the RFC 4122 variant", "bits 7..6 of byte 8 are 10 in the value returned",
+			fmt.Sprintf("in the returned value the variant bits of byte 8 are %s, RFC 4122 requires 10", gotV))
 	}
 }
 
@@ -258,79 +128,80 @@ func c19r2(p *Program, r *Report) {
 	if po := paramObj(winfo, wr.Decl.Type, 0); po != nil {
 		tName = po.Name()
 	}
-	wshift := map[int]int{}
-	ast.Inspect(wr.Decl.Body, func(x ast.Node) bool {
-		as, ok := x.(*ast.AssignStmt)
-		if !ok || len(as.Lhs) != len(as.Rhs) || as.Tok != token.ASSIGN {
-			return true
-		}
-		for i, l := range as.Lhs {
-			ix, ok := ast.Unparen(l).(*ast.IndexExpr)
-			if !ok {
-				continue
-			}
-			k, ok := constInt(winfo, ix.Index)
-			if !ok {
-				continue
-			}
-			rhs := ast.Unparen(as.Rhs[i])
-			if b, ok := rhs.(*ast.BinaryExpr); ok && b.Op == token.AND {
-				rhs = ast.Unparen(b.X)
-			}
-			it := parseByteItem(winfo, rhs)
-			if !it.IsConst && it.Base == tName {
-				wshift[int(k)] = it.Shift
+	bytes, why := uuidBytes(p, wr)
+	if bytes == nil {
+		r.Unresolved("TimeUUIDWith: %s", why)
+		return
+	}
+	// writer: which bit of t lands in which bit of which byte
+	wbit := map[[2]int]int{} // (byte, bit) -> bit of t
+	for i := 0; i < 8; i++ {
+		pv := provenance(bytes[i])
+		for j := 0; j < 8; j++ {
+			if pv[j].kind == 's' && pv[j].sym == tName {
+				wbit[[2]int{i, j}] = pv[j].bit
 			}
 		}
-		return true
-	})
+	}
+	// reader: Timestamp() of a version-1 UUID with symbolic bytes
+	se := newSymEval(p)
+	u := &arrVal{elemT: types.Typ[types.Uint8]}
+	for i := 0; i < 16; i++ {
+		name := fmt.Sprintf("byte:u[%d]", i)
+		u.elems = append(u.elems, sval{kind: 'i', t: tSym(name), typ: types.Typ[types.Uint8]})
+	}
+	se.attrs["byte:u[6]"] = map[uint64]uint64{0xF0: 0x10}
 	rinfo := rd.Pkg.TypesInfo
-	rshift := map[int]int{}
-	ast.Inspect(rd.Decl.Body, func(x ast.Node) bool {
-		b, ok := x.(*ast.BinaryExpr)
-		if !ok || b.Op != token.SHL {
-			return true
+	if rd.Decl.Recv == nil || len(rd.Decl.Recv.List) != 1 || len(rd.Decl.Recv.List[0].Names) != 1 {
+		r.Unresolved("Timestamp has no named receiver")
+		return
+	}
+	se.env[rinfo.Defs[rd.Decl.Recv.List[0].Names[0]]] = sval{kind: 'a', arr: u}
+	vals, ok := se.evalFunc(rd, nil)
+	if len(se.unsup) > 0 || !ok || len(vals) != 1 || vals[0].kind != 'i' {
+		r.Unresolved("(UUID).Timestamp: %s", strings.Join(se.unsup, "; "))
+		return
+	}
+	rp := provenance(vals[0].t)
+	rbit := map[[2]int]int{} // (byte, bit) -> bit of the timestamp it becomes
+	for b := 0; b < 64; b++ {
+		if rp[b].kind == 's' && strings.HasPrefix(rp[b].sym, "byte:u[") {
+			var idx int
+			fmt.Sscanf(rp[b].sym, "byte:u[%d]", &idx)
+			rbit[[2]int{idx, rp[b].bit}] = b
 		}
-		s, ok := constInt(rinfo, b.Y)
-		if !ok {
-			return true
-		}
-		// operand: T(u[i]) or T(u[i] & M)
-		var idx ast.Expr
-		ast.Inspect(b.X, func(m ast.Node) bool {
-			if ix, ok := m.(*ast.IndexExpr); ok && idx == nil {
-				idx = ix.Index
-			}
-			return true
-		})
-		if idx != nil {
-			if k, ok := constInt(rinfo, idx); ok {
-				rshift[int(k)] = int(s)
-			}
-		}
-		return true
-	})
-	// u[3] has shift 0: `uint64(u[3])` without <<
-	ast.Inspect(rd.Decl.Body, func(x ast.Node) bool {
-		if c, ok := x.(*ast.CallExpr); ok && len(c.Args) == 1 {
-			if ix, ok := ast.Unparen(c.Args[0]).(*ast.IndexExpr); ok {
-				if k, ok := constInt(rinfo, ix.Index); ok {
-					if _, has := rshift[int(k)]; !has {
-						if _, isShift := p.Parent(c).(*ast.BinaryExpr); !isShift || p.Parent(c).(*ast.BinaryExpr).Op != token.SHL {
-							rshift[int(k)] = 0
-						}
-					}
-				}
-			}
-		}
-		return true
-	})
+	}
 	want := map[int]int{0: 24, 1: 16, 2: 8, 3: 0, 4: 40, 5: 32, 6: 56, 7: 48}
 	for i := 0; i < 8; i++ {
-		ws, wok := wshift[i]
-		rs, rok := rshift[i]
-		r.Check(wok && rok && ws == rs && ws == want[i], wr.Decl, fmt.Sprintf("timestamp byte %d: writer and reader use shift %d", i, want[i]), fmt.Sprintf("writer >>%d, reader <<%d", ws, rs),
-			fmt.Sprintf("UUID byte %d: TimeUUIDWith stores t>>%d (found=%v) but Timestamp() reads it <<%d (found=%v); RFC 4122 layout says %d: a time-UUID does not return the time it was built from", i, ws, wok, rs, rok, want[i]))
+		nb := 8
+		if i == 6 {
+			nb = 4 // the high nibble of byte 6 is the version
+		}
+		okAll := true
+		ws, rs := -1, -1
+		for j := 0; j < nb; j++ {
+			wb, wok := wbit[[2]int{i, j}]
+			rb, rok := rbit[[2]int{i, j}]
+			if j == 0 {
+				if wok {
+					ws = wb
+				}
+				if rok {
+					rs = rb
+				}
+			}
+			if !wok || !rok || wb != want[i]+j || rb != want[i]+j {
+				okAll = false
+			}
+		}
+		r.Check(okAll, wr.Decl, fmt.Sprintf("timestamp byte %d: writer and reader use shift %d", i, want[i]), fmt.Sprintf("bit j of the byte is bit %d+j of the timestamp in both directions", want[i]),
+			fmt.Sprintf("UUID byte %d: TimeUUIDWith stores bit %d of t in its lowest bit and Timestamp() reads that bit back as bit %d (-1: not found); RFC 4122 layout says %d: a time-UUID does not return the time it was built from", i, ws, rs, want[i]))
+	}
+	// no other byte, and not the version nibble, contributes to the timestamp
+	for k, b := range rbit {
+		if k[0] > 7 || k[0] == 6 && k[1] > 3 {
+			r.Bad(rd.Decl, "Timestamp() reads only the timestamp fields", fmt.Sprintf("bit %d of byte %d (not a timestamp bit) becomes bit %d of the timestamp", k[1], k[0], b))
+		}
 	}
 }
 
@@ -355,88 +226,135 @@ func c19r3(p *Program, r *Report) {
 	runeObj := info.Defs[rng.Value.(*ast.Ident)]
 	ranges := map[string][2]rune{"digits": {'0', '9'}, "lower": {'a', 'f'}, "upper": {'A', 'F'}}
 	found := map[string]bool{}
-	nwrite := 0
-	ast.Inspect(rng.Body, func(x ast.Node) bool {
-		cc, ok := x.(*ast.CaseClause)
-		if !ok {
-			return true
+	// production sites: conversions byte(R - 'c') / byte(R - 'c' + 10) of the input rune R, in ParseUUID or in a
+	// helper that is handed the rune. At each site the guards must confine R to the range that starts at 'c'.
+	type prodSite struct {
+		fn   *FuncInfo
+		call *ast.CallExpr
+		r    *ast.Ident
+		base rune
+		plus bool
+	}
+	var sites []prodSite
+	prodOf := func(fn *FuncInfo, e ast.Expr, isRune func(*ast.Ident) bool) (prodSite, bool) {
+		c, ok := ast.Unparen(e).(*ast.CallExpr)
+		if !ok || len(c.Args) != 1 {
+			return prodSite{}, false
 		}
-		// does the clause write u[...]?
-		var store *ast.AssignStmt
-		for _, st := range cc.Body {
-			if as, ok := st.(*ast.AssignStmt); ok {
-				if _, isIx := ast.Unparen(as.Lhs[0]).(*ast.IndexExpr); isIx {
-					store = as
+		if tv, isT := info.Types[c.Fun]; !isT || !tv.IsType() {
+			return prodSite{}, false
+		}
+		x := ast.Unparen(c.Args[0])
+		plus := false
+		if b, isB := x.(*ast.BinaryExpr); isB && b.Op == token.ADD {
+			if k, isK := constInt(info, b.Y); isK && k == 10 {
+				plus, x = true, ast.Unparen(b.X)
+			} else if k, isK := constInt(info, b.X); isK && k == 10 {
+				plus, x = true, ast.Unparen(b.Y)
+			}
+		}
+		b, isB := x.(*ast.BinaryExpr)
+		if !isB || b.Op != token.SUB {
+			return prodSite{}, false
+		}
+		id, isId := ast.Unparen(b.X).(*ast.Ident)
+		k, isK := constInt(info, b.Y)
+		if !isId || !isK || !isRune(id) {
+			return prodSite{}, false
+		}
+		return prodSite{fn, c, id, rune(k), plus}, true
+	}
+	for _, u := range p.unitsOf(fi) {
+		u := u
+		isRune := func(id *ast.Ident) bool {
+			if u == fi {
+				return info.Uses[id] == runeObj
+			}
+			rf, re := p.resolveValue(u, id, 0)
+			return rf == fi && isIdentOf(info, re, runeObj)
+		}
+		inspectNoLit(u.Decl.Body, func(x ast.Node) bool {
+			if e, ok := x.(ast.Expr); ok {
+				if ps, ok := prodOf(u, e, isRune); ok {
+					sites = append(sites, ps)
+					return false
 				}
 			}
-		}
-		if store == nil || len(cc.List) != 1 {
 			return true
-		}
-		nwrite++
-		var atoms []ast.Expr
-		var split func(e ast.Expr)
-		split = func(e ast.Expr) {
-			e = ast.Unparen(e)
-			if b, ok := e.(*ast.BinaryExpr); ok && b.Op == token.LAND {
-				split(b.X)
-				split(b.Y)
-				return
-			}
-			atoms = append(atoms, e)
-		}
-		split(cc.List[0])
-		var lo, hi rune = -1, -1
-		onRune := true
-		guardJ := false
-		for _, a := range atoms {
-			b, ok := a.(*ast.BinaryExpr)
-			if !ok {
-				continue
-			}
-			if k, isC := constInt(info, b.Y); isC {
-				if id, isId := ast.Unparen(b.X).(*ast.Ident); isId {
-					switch {
-					case info.Uses[id] == runeObj && b.Op == token.GEQ:
-						lo = rune(k)
-					case info.Uses[id] == runeObj && b.Op == token.LEQ:
-						hi = rune(k)
-					case id.Name == "j" && b.Op == token.LSS && k == 32:
-						guardJ = true
-					case (b.Op == token.GEQ || b.Op == token.LEQ) && info.Uses[id] != runeObj && id.Name != "j":
-						onRune = false
-					}
-				}
+		})
+	}
+	nwrite := len(sites)
+	for _, ps := range sites {
+		sg := p.GraphOf(ps.fn)
+		f, _ := sg.GuardFacts().Before(p.stmtOf(ps.call, ps.fn))
+		if cc, ok := p.enclosing(ps.call, ps.fn.Decl, func(n ast.Node) bool { _, is := n.(*ast.CaseClause); return is }).(*ast.CaseClause); ok && len(cc.List) == 1 {
+			if sw, isSw := p.Parent(p.Parent(cc)).(*ast.SwitchStmt); isSw && sw.Tag == nil {
+				f = f.clone()
+				f.assume(cc.List[0], true)
 			}
 		}
+		d := newDBM(sg, f, nil)
 		which := ""
 		for nme, rg := range ranges {
-			if lo == rg[0] && hi == rg[1] {
+			if rg[0] != ps.base {
+				continue
+			}
+			lo := &ast.BasicLit{Kind: token.INT, Value: fmtInt(int(rg[0]))}
+			hi := &ast.BasicLit{Kind: token.INT, Value: fmtInt(int(rg[1]))}
+			if d.leExpr(lo, 0, ps.r, 0) && d.leExpr(ps.r, 0, hi, 0) {
 				which = nme
 			}
 		}
-		name := "ParseUUID case " + exprStr(cc.List[0])
-		r.Check(which != "" && onRune, cc, name+" classifies the input rune against one hexadecimal range", which, "the digit test is not `r >= L && r <= H` on the input rune itself for one of '0'-'9', 'a'-'f', 'A'-'F' (a folded or derived value lets other characters pass as digits)")
+		name := fmt.Sprintf("ParseUUID digit value %s", exprStr(ps.call))
+		r.Check(which != "", ps.call, name+" is computed only for runes of the hexadecimal range that starts at its base", which,
+			fmt.Sprintf("the digit value %s is computed although the guards do not confine the rune to the hexadecimal range starting at %q: other characters are accepted as digits", exprStr(ps.call), ps.base))
 		if which != "" {
 			found[which] = true
-			// value: byte(r - L) or byte(r - L + 10)
-			val := exprStr(store.Rhs[0])
-			base := fmt.Sprintf("'%c'", ranges[which][0])
-			okVal := strings.Contains(val, exprStr(rng.Value)+" - "+base) || strings.Contains(val, exprStr(rng.Value)+"-"+base)
-			if which != "digits" {
-				okVal = okVal && strings.Contains(val, "10")
-			}
-			r.Check(okVal, store, name+" converts with the matching base", val, "the digit value is not computed from the same range's base character: "+val)
+			r.Check(ps.plus == (which != "digits"), ps.call, name+" converts with the matching base", exprStr(ps.call), "the digit value is not computed from the same range's base character (letters are 10 + offset): "+exprStr(ps.call))
 		}
-		r.Check(guardJ, cc, name+" writes only while j < 32", "j < 32 in the case condition", "the store into u[j/2] is not guarded by j < 32: a 33rd digit indexes out of range")
+	}
+	// stores into the UUID: only while fewer than 32 digits were consumed
+	var counter *ast.Ident
+	ast.Inspect(rng.Body, func(x ast.Node) bool {
+		as, ok := x.(*ast.AssignStmt)
+		if !ok || len(as.Lhs) != 1 {
+			return true
+		}
+		ix, isIx := ast.Unparen(as.Lhs[0]).(*ast.IndexExpr)
+		if !isIx || typeNameOf(info.TypeOf(ix.X)) != "UUID" {
+			return true
+		}
+		var cid *ast.Ident
+		ast.Inspect(ix.Index, func(y ast.Node) bool {
+			if id, ok := y.(*ast.Ident); ok && cid == nil {
+				if _, isVar := info.Uses[id].(*types.Var); isVar {
+					cid = id
+				}
+			}
+			return true
+		})
+		if cid == nil {
+			return true
+		}
+		counter = cid
+		f, _ := g.GuardFacts().Before(as)
+		if cc, ok := p.enclosing(as, fi.Decl, func(n ast.Node) bool { _, is := n.(*ast.CaseClause); return is }).(*ast.CaseClause); ok && len(cc.List) == 1 {
+			if sw, isSw := p.Parent(p.Parent(cc)).(*ast.SwitchStmt); isSw && sw.Tag == nil {
+				f = f.clone()
+				f.assume(cc.List[0], true)
+			}
+		}
+		d := newDBM(g, f, nil)
+		r.Check(d.leExpr(cid, 0, &ast.BasicLit{Kind: token.INT, Value: "31"}, 0), as, "ParseUUID store "+exprStr(as.Lhs[0])+" happens only while "+cid.Name+" < 32", cid.Name+" < 32 known at the store",
+			"the store into "+exprStr(as.Lhs[0])+" is not guarded by "+cid.Name+" < 32: a 33rd digit indexes out of range")
 		return true
 	})
 	if nwrite == 0 {
-		r.Unresolved("ParseUUID does not classify the rune in a switch over the hexadecimal ranges (the form this rule compares with the ranges); only the width and length rules below are decided")
+		r.Unresolved("ParseUUID: no conversion of the input rune into a digit value (byte(r - base)) found")
 	} else {
 		for nme := range ranges {
 			if !found[nme] {
-				r.Bad(rng, "ParseUUID handles "+nme, "no case for the "+nme+" hexadecimal range")
+				r.Bad(rng, "ParseUUID handles "+nme, "no digit conversion for the "+nme+" hexadecimal range")
 			}
 		}
 	}
@@ -639,13 +557,15 @@ func c19r3(p *Program, r *Report) {
 			continue
 		}
 		f, _ := facts.Before(rs)
-		for atom, v := range f.m {
-			if v && (atom == "j == 32" || atom == "32 == j") {
+		if counter != nil {
+			d := newDBM(g, f, nil)
+			k32 := &ast.BasicLit{Kind: token.INT, Value: "32"}
+			if d.leExpr(counter, 0, k32, 0) && d.leExpr(k32, 0, counter, 0) {
 				okFinal = true
 			}
 		}
 	}
-	r.Check(okFinal, fi.Decl, "ParseUUID accepts only exactly 32 digits", "success return dominated by j == 32", "a string with fewer than 32 hexadecimal digits is accepted")
+	r.Check(okFinal, fi.Decl, "ParseUUID accepts only exactly 32 digits", "success return dominated by <digit count> == 32", "a string with fewer than 32 hexadecimal digits is accepted")
 	// default case rejects
 	rej := false
 	ast.Inspect(rng.Body, func(x ast.Node) bool {
@@ -654,7 +574,14 @@ func c19r3(p *Program, r *Report) {
 		}
 		return true
 	})
-	if nwrite > 0 {
+	hasDefault := false
+	ast.Inspect(rng.Body, func(x ast.Node) bool {
+		if cc, ok := x.(*ast.CaseClause); ok && cc.List == nil {
+			hasDefault = true
+		}
+		return true
+	})
+	if nwrite > 0 && hasDefault {
 		r.Check(rej, rng, "ParseUUID rejects every other character", "default returns an error", "characters that are neither hexadecimal digits nor separators are not rejected")
 	}
 }
@@ -702,9 +629,30 @@ func c19r4(p *Program, r *Report) {
 	// other UUID generated for the same timestamp)
 	if fi := r.NeedFunc("UUIDFromTime"); fi != nil {
 		info := fi.Pkg.TypesInfo
-		isInc := func(e ast.Expr) bool {
+		var isIncD func(e ast.Expr, depth int) bool
+		isIncD = func(e ast.Expr, depth int) bool {
 			c, ok := ast.Unparen(e).(*ast.CallExpr)
-			if !ok || calleeName(info, c) != "atomic.AddUint32" || len(c.Args) != 2 {
+			if !ok {
+				return false
+			}
+			if calleeName(info, c) != "atomic.AddUint32" || len(c.Args) != 2 {
+				// a helper every return of which is such an increment
+				if fn := calleeOf(info, c); fn != nil && depth < 2 {
+					if h := p.FuncOf(fn); h != nil && h.Pkg == p.Root && h.Decl.Body != nil {
+						nret, all := 0, true
+						for _, ex := range p.GraphOf(h).Exits() {
+							rs, isR := ex.Node.(*ast.ReturnStmt)
+							if ex.Kind == ExitPanic {
+								continue
+							}
+							nret++
+							if !isR || len(rs.Results) != 1 || !isIncD(rs.Results[0], depth+1) {
+								all = false
+							}
+						}
+						return nret > 0 && all
+					}
+				}
 				return false
 			}
 			u, ok := c.Args[0].(*ast.UnaryExpr)
@@ -715,6 +663,7 @@ func c19r4(p *Program, r *Report) {
 			k, isK := constInt(info, c.Args[1])
 			return ok && info.Uses[id] == obj && isK && k > 0
 		}
+		isInc := func(e ast.Expr) bool { return isIncD(e, 0) }
 		found := false
 		for _, c := range callsIn(fi.Decl.Body) {
 			if !isCallTo(info, c, "TimeUUIDWith") || len(c.Args) != 3 {
